@@ -315,7 +315,7 @@ PROPS["C03"] = dict(
          "max,target in -1..8 x size 0..8 x 6 offset lists, plus seeded large values; Go result must equal the model. non-trivial = "
          "offset list mixing negative and positive offsets, or a forced trim (size > max)",
     stages=[corr_stage("C03F", 2000, 40000, params=None, feature=feat_c03, tparams={"maxlen": 4}),
-            corr_stage("BUFK1", 300, 5000, feature=feat_buf("C03"), params={"salt": 3, "cleaner": 1})],
+            corr_stage("BUFK1", 300, 5000, feature=feat_buf("C03"), params={"salt": 3, "cleanermix": 1})],
 )
 
 
@@ -464,4 +464,253 @@ PROPS["C18"] = dict(
          "consumed fatal error nested >= 2 deep, or > 32 calls; or a real delay sample with c >= 1 and non-zero delay; distinct by script shape",
     stages=[corr_stage("C18K1", 400, 6000, feature=feat_c18, seeds=3),
             corr_stage("C18F", 12, 60, params=None, feature=feat_c18)],
+)
+
+
+# ---------------------------------------------------------------------------------------------------------------
+# C08 ChanCaster
+# ---------------------------------------------------------------------------------------------------------------
+def feat_c08(tok):
+    if tok[0] != "F":
+        return None
+    body = tok[3:]
+    bar = body.index("|")
+    args, res = body[:bar], body[bar + 1:]
+    if tok[1] == "caster_add":
+        whi, wlo, dkind, delta = args
+        if res[0] == "0" and (whi != "0" or delta != "0"):
+            return "add:" + " ".join(args)
+        if res[0] == "1" and (res[1], res[2]) != (whi, wlo):
+            return "addp:" + " ".join(args)        # panicked AFTER modifying the word
+        return None
+    if tok[1] == "caster_send":
+        return "send:" + " ".join(args) if res[4] != "0" else None
+    if tok[1] == "caster_send_cas":
+        return "cas:" + " ".join(args) if args[4] == "1" else None
+    if tok[1] == "caster_round":
+        r, d = int(args[0]), int(args[1])
+        return "round:%s:%s" % (tok[2].split("-")[1] if "-p" in tok[2] else "", " ".join(args)) if 0 < d else None
+    return None
+
+PROPS["C08"] = dict(
+    rule="C08F: Add on hand-set state words (8 boundary counts x 8 lo shapes x 26 deltas incl. +-MaxInt32(+1), MinInt64, MaxInt64, plus seeded "
+         "valid / wrap-around / arbitrary 64-bit words) and Send on hand-set words with the word overwritten between two channel sends; "
+         "panicked/new word/return/absorbed must equal the extracted Model/Caster.v. C08K2: unbuffered casters used per contract (1-5 receivers: "
+         "Add(1) then receive-or-Add(-1); 1-2 concurrent Sends; phase-separated rounds decided by the model) with monitors (return = receivers "
+         "that got the value; registered-before-and-not-deregistered => received; nothing received from a Send that returned before the Add; "
+         "Add(0)=0 and word 0 afterwards; no panic; no call blocked after 2 s) + misuse sequences that must panic. C08S (instrumented): Send's final "
+         "load/CAS taken apart by a hook at the instrumentation point between them (decided by send_end_cas), and the monitors under a delay-bounded "
+         "sweep (1.5 ms at every point of chancaster.go hit, k-th hit <= 2) of 4 scenarios (racing deregistration, late registration, both, all "
+         "deregister). non-trivial = Add that returned/absorbed/panicked after modifying, Send that armed, word changed between load and CAS, round "
+         "with a racing deregistration; distinct by arguments (and sweep point)",
+    level_text="Theorems (Properties/C08.v). Word level, all 64-bit words and all deltas: Add oracle, send_begin/send_end(/cas) specs, out-of-range/"
+               "unbalanced Adds panic, running-sum characterisation. Protocol level (counter abstraction + one tracked receiver, any number of "
+               "senders/receivers, every schedule at lock/atomic/channel-operation granularity): no false panic, no stolen copy, ret = delivered, "
+               "ret + absorbed = registered at arming, word 0 after Send, exactly-once per counted receiver, late registration blocked until unlock, "
+               "racing deregistration removes-before-count or absorbs exactly one, deadlock freedom + termination measure; two mutation refutations. "
+               "'every later call panics too' is refuted (C08_sticky_refuted, finding F4, known) and replaced by C08_sticky_until_compensated_partial.",
+    level_note="PARTIAL on the parenthetical 'every later call panics too' (false of the code: known finding F4). Trusted: hand-written models; "
+               "CasterAbs.v abstracts the word to (count, armed) assuming counts far below MaxInt32 (overflow is covered at word level only); "
+               "sync.RWMutex writer preference as modelled; protocol theorems are for unbuffered channels; harness logical clock and 2 s hang deadline.",
+    stages=[corr_stage("C08F", 300, 20000, feature=feat_c08, seeds=2),
+            corr_stage("C08K2", 300, 6000, feature=feat_c08, seeds=3),
+            corr_stage("C08S", 3, 12, feature=feat_c08, instrument=True, shards=4, tparams={"points": 1000})],
+)
+
+# ---------------------------------------------------------------------------------------------------------------
+# C14 Workers
+# ---------------------------------------------------------------------------------------------------------------
+def feat_c14(tok):
+    body = tok[tok.index("#") + 1:] if "#" in tok else tok[3:]
+    if tok[0] == "K1":
+        cfg = tok[3:tok.index("#")]
+        ops, _ = _split(body, "|")
+        ops = [o for o in _split(ops, ";") if o]
+        tworun = queued = False; acts = []
+        for o in ops:
+            na = int(o[0]); rest = o[1 + 2 * na:]
+            acts.append(" ".join(o[:1 + 2 * na]))
+            if int(rest[3]) >= 2: tworun = True
+            if int(rest[1]) >= 1: queued = True
+        return ("k1:" + " ".join(cfg) + "#" + ";".join(acts)) if (tworun and queued) else None
+    if tok[0] == "F":
+        args = body[:body.index("|")]
+        if len(set(args)) > 1: return "burst:" + " ".join(args)
+    return None
+
+PROPS["C14"] = dict(
+    level_text="Theorems (Properties/C14.v, 18, all closed): for every program (any number of callers, any scripts of Call k / Wait / Count, any count arguments) "
+               "and every schedule of the thread-table model of workers.go (one step per critical section): each call's function runs exactly once before its "
+               "Call returns and the value returned is its own (C14_exactly_once); #running <= count = #live workers <= largest count requested so far, <= N "
+               "when every caller passes <= N (C14_bound, C14_bound_uniform); a non-empty queue always has a live worker and every terminal state has an empty "
+               "queue, no worker, every Call returned (C14_no_strand), with a strictly decreasing measure and extension of every run to a terminal one; Wait "
+               "returns only at count = 0 and Count stays 0 until the next Call; four one-token mutations refuted on the same step function. Tie: gated quiescent "
+               "scenarios decided by search over the extracted step function, free-running bursts decided by monitors and the model's terminal state.",
+    level_note="Trusted: Coq kernel, extraction, OCaml adapter (interleaving exploration is untrusted glue that only applies the extracted step), Go harness and "
+               "goroutine-dump quiescence detection; each modelled step is atomic under Workers.mutex (C11); Wait's cond loop modelled as a step enabled at count = 0; "
+               "user functions terminate and do not panic; results modelled as call ids.",
+    rule="C14K1: 2-6 caller goroutines x 1-3 ops (Call k, k in 1..5 random/uniform/decreasing/increasing; Wait; Count; Call 0), functions gated, 1-3 simultaneous "
+         "actions per step, quiescence after each; observation must be reachable in the model by some interleaving; monitors strand/bound/twice/leftover. C14K2: "
+         "bursts of 6-35 concurrent Calls, monitors + F record vs model terminal state. non-trivial = K1 case with >= 2 functions running and a non-empty queue at "
+         "quiescent points (distinct by program + action sequence), or a burst with >= 2 different counts",
+    stages=[corr_stage("C14K1", 250, 2500, feature=feat_c14, seeds=3),
+            corr_stage("C14K2", 400, 2000, feature=feat_c14, seeds=3)],
+)
+
+# ---------------------------------------------------------------------------------------------------------------
+# C17 Worker
+# ---------------------------------------------------------------------------------------------------------------
+def feat_c17(tok):
+    body = tok[tok.index("#") + 1:]
+    if tok[0] == "K1":
+        ops, outs = _split(body, "|")
+        ops = [o for o in _split(ops, ";") if o]; outs = [o for o in _split(outs, ";") if o]
+        if any(int(o[5]) > 0 for o in outs) and int(outs[-1][1]) >= 2:
+            return "k1:" + " ".join(";".join(x) for x in ops)
+        return None
+    if tok[0] == "K2":
+        recs = [r for r in _split(body, ";") if r]; kinds = []; restart = False
+        for r in recs:
+            op = _split(r, ":")[1]; kinds.append(",".join(op))
+            if op[0] == "2" and int(op[1]) >= 1: restart = True
+        if restart and len(recs) >= 6: return "k2:" + " ".join(kinds)
+    return None
+
+PROPS["C17"] = dict(
+    level_text="Theorems (Properties/C17.v) over an interleaving model of worker.go (Do critical section, done(), watcher and do-goroutine steps; WaitGroup objects as "
+               "generations): single instance; held => instance exists, stop open, function not returned; stop closed only by the watcher holding mu after every done; "
+               "Do blocked during the stop phase then starts a fresh instance; terminal states have everything stopped + decreasing measure; no panic; three refuted "
+               "variants. Tie: K1 gated quiescent runs vs extracted kstep oracle, K2 free-running histories linearized vs extracted step, MONITOR lines for overlap / "
+               "stop-open-while-held / leak.",
+    level_note="Trusted: Coq kernel, extraction, OCaml glue, Go harness (goroutine-dump quiescence; in-package TryLock peeks at Worker.stop). Assumes the instance "
+               "function returns only after seeing stop closed and each done is called at most once.",
+    rule="K1: seeded scripts of Do (own goroutine)/done(h)/release-instance/Do(nil), quiescence after each action; vector (Do returned, instances started, saw stop, "
+         "returned, library goroutines above baseline, blocked Do calls) must equal the model's. K2: 2-5 goroutines x 1-3 Do..done holds with jitter, or a relay where "
+         "the last done races the next Do; history incl. instance start/saw-stop/return events must be a model history. non-trivial = K1 case where a Do was blocked "
+         "by a stop phase and a second instance started, or K2 history with >=6 ops and an instance restart; distinct by op sequence",
+    stages=[corr_stage("C17K1", 250, 2000, feature=feat_c17, seeds=3),
+            corr_stage("C17K2", 300, 5000, feature=feat_c17, seeds=3)],
+)
+
+# ---------------------------------------------------------------------------------------------------------------
+# C20 LinearAttempt
+# ---------------------------------------------------------------------------------------------------------------
+def feat_c20(tok):
+    if tok[0] == "K1":
+        body = tok[tok.index("#") + 1:]
+        ops, outs = _split(body, "|")
+        ops = [o for o in _split(ops, ";") if o]
+        # non-trivial: the scenario cancelled or received after the call (a producer existed)
+        if len(ops) >= 3 and tok[3] != "1":
+            return "k1:" + tok[3] + ":" + ";".join(" ".join(o) for o in ops)
+        return None
+    if tok[0] == "F" and tok[1] == "attempt_obs":
+        args = tok[3:tok.index("|")]
+        count, nrecv, nafter = int(args[0]), int(args[1]), int(args[3])
+        if (count >= 2 and nrecv >= 2) or nafter > 0 or nrecv < count:
+            return "obs:" + " ".join(args)
+    return None
+
+PROPS["C20"] = dict(
+    level_text="Theorems (Properties/C20.v, 17) over an interleaving model of attempt.go (caller steps, producer one step per statement, ticker that drops ticks "
+               "when one is pending, canceller, receiver enabled only when it would not block), for every count >= 1 and every schedule: first value present on "
+               "return (or closed and empty when pre-cancelled); at most count values; buffer <= 1; non-decreasing timestamps; every library-quiet state is closed "
+               "with the producer gone, after count values or a cancellation; at most one send and two receives after the cancel step; producer progress/exit; five "
+               "refuted variants (count on dropped tick, no re-check, blocking send, no close on count=1, capacity 2). Tie: K1 deterministic cases decided by the "
+               "extracted kstep, timed runs decided by obs_ok plus timing-independent MONITOR lines, capacity compared at run time.",
+    level_note="Trusted: runtime semantics of time.Ticker (channel of capacity 1, drops ticks; timestamps non-decreasing for periods >= 200 us) and of buffered channels; "
+               "liveness is terminal-state + rank, assuming an armed ticker keeps firing; deadlines >= 20 x rate + 200 ms.",
+    rule="C20K1: deterministic cases (pre-cancelled, count 1, rate 1 h with receives/cancels in every order, rate 1-3 ms observed only when the producer is parked) "
+         "decided by the model; C20T: per unit one millisecond-scale case (rates 2-5 ms / 0.2-1 ms / 1-40 us; receiver prompt, slow or absent; five cancellation "
+         "plans) plus four race cases (rate 1 ns - 1 us, spinning receiver, instantaneous cancel). non-trivial = K1 case in which a producer existed and the scenario "
+         "received or cancelled after the call, or a timed case cut short by cancellation / with values after cancellation / completed with count >= 2; distinct by tuple",
+    stages=[corr_stage("C20K1", 400, 6000, feature=feat_c20, seeds=2),
+            corr_stage("C20T", 300, 5000, feature=feat_c20, seeds=2)],
+)
+
+# ---------------------------------------------------------------------------------------------------------------
+# C16 context combinators
+# ---------------------------------------------------------------------------------------------------------------
+def feat_c16(tok):   # non-trivial: a cancel during/after the call changes an observable
+    if tok[0] != "K1" or tok[2].startswith("race-"): return None
+    i = tok.index("#"); cfg = tok[3:i]; ops, outs = _split(tok[i+1:], "|")
+    ops = [o for o in _split(ops, ";") if o]; outs = [o for o in _split(outs, ";") if o]
+    prev = None; hit = False
+    for o, r in zip(ops, outs):
+        if o[0] in ("0", "5"):
+            prev = r
+            if o[0] == "5" and (r[0] == "1" or r[1] == "1"): hit = True
+        elif o[0] in ("1", "2") and prev is not None:
+            if r[:3] != prev[:3]: hit = True
+            prev = r
+    return ("k%s:%s#%s" % (cfg[0], " ".join(cfg), ";".join(" ".join(o) for o in ops))) if hit else None
+
+PROPS["C16"] = dict(
+    level_text="Theorems (Properties/C16.v, 21) over a model of the std context package (forest of nodes, atomic cancel cascade, AfterFunc registrations "
+               "Pending/Stopped/Fired with the callback in its own goroutine, atomic stop()) and the three functions of context.go as program-counter machines, one "
+               "step per std/WaitGroup call, for EVERY input forest (aliasing, ancestry, nil others), pre-cancelled subset and schedule: ChainAfterFunc runs f never "
+               "twice, never if neither context is cancelled, exactly once at quiescence if either is; CombineContext is cancelled only if / at quiescence iff the "
+               "primary or a non-nil other is, already at return if an input already is, carries the primary's values, leaves no registration pending; "
+               "ConflatedContext stays live while a construction-time-live input is live and cancel() was not called, is cancelled once all are, its WaitGroup never "
+               "goes negative, its waiter exits, values only from the first input; progress measures; four refuted variants. Tie: K1 quiescent differential runs over "
+               "every pre-cancelled subset x cancel order (exhaustive shapes) + seeded forests, barrier-released simultaneous cancels with monitors.",
+    level_note="Trusted: the std context model (atomic cascade, values fixed at creation), scheduler fairness for liveness ('promptly' = at every quiescent state + "
+               "decreasing measure), Coq kernel, extraction, OCaml glue, Go harness (quiescence = no other goroutine runnable in one goroutine dump).",
+    rule="C16K1 EXHAUSTIVE over every pre-cancelled subset x every later cancel order for: ChainAfterFunc with independent / same / parent-child (both ways) / sibling "
+         "contexts and a cancel between its two registrations; CombineContext with 0..3 others x every nil pattern x nil/non-nil primary; ConflatedContext with 1..3 "
+         "inputs (4 thorough) x cancel() at every position; plus seeded random forests. Outputs per op (cancelled, f calls, pending registrations, waiter goroutines, "
+         "result identity) and Value lookups must equal the model. C16RACE: simultaneous cancels released by a barrier, half racing the call itself, with monitors. "
+         "non-trivial = K1 case in which a cancel during or after the call changes an observable; distinct by configuration + op sequence",
+    stages=[corr_stage("C16K1", 120, 1500, params={"maxn": 3, "kinds": 1}, feature=feat_c16, seeds=3),
+            corr_stage("C16RACE", 600, 20000, params={"kinds": 1}, feature=feat_c16, seeds=3),
+            corr_stage("C16K1", 300, 4000, params={"maxn": 3, "kinds": 6}, tparams={"maxn": 4}, feature=feat_c16, seeds=3),
+            corr_stage("C16RACE", 1200, 30000, params={"kinds": 6}, feature=feat_c16, seeds=3)],
+)
+
+# ---------------------------------------------------------------------------------------------------------------
+# C06 / C07 ChanPubSub
+# ---------------------------------------------------------------------------------------------------------------
+def feat_pubsub(tok):
+    # F pubsub_case <id> senders subscribers iterators sends receipts leaves_mid_send overlapping_send_pairs | 1
+    if tok[0] != "F": return None
+    if tok[1] != "pubsub_case": return tok[1] + ":" + " ".join(tok[3:])
+    a = tok[3:tok.index("|")]; mid, conc, recv = int(a[5]), int(a[6]), int(a[4])
+    if "-p" in tok[2]: return tok[2]                                   # sweep run with an injected delay
+    if recv > 0 and (mid > 0 or conc > 0): return tok[2] + ":" + " ".join(a)
+    return None
+
+_PS_NOTE = ("Trusted: hand-written counter-abstraction models (Model/PubSubAbs.v: number of threads at each program point, one step per lock/atomic/channel "
+            "operation; Model/PubSubTag.v adds one individually tracked subscription); their tie to chanpubsub.go is the Go monitors on free-running programs and "
+            "the delay-bounded sweep over the real code's synchronisation points — an abstract model with anonymous subscribers cannot decide a concrete history. "
+            "Not modelled (exercised by the harness only): SubscribeContext's AfterFunc/stop pairing, checkBroken, |delta| > 1, Add(0), channel close. The symmetry "
+            "step from 'an arbitrary tracked subscription' to 'all n distinct subscriptions' is a meta-argument. sync.RWMutex writer preference and TryRLock as modelled.")
+
+PROPS["C06"] = dict(
+    rule="C06K2: free-running programs, 1-3 senders x 1-4 tagged values, 2-6 subscribers in seven styles (manual with quota, manual on a timer, iterator cancelled, "
+         "iterator break, iterator never run then cancelled, iterator cancelled then run, a standing anchor), joins/leaves at seeded points incl. mid-Send; monitors on "
+         "the tick log: receipts of v = Send's return by distinct subscriptions, standing subscriptions included, no duplicate, no stale value, Send returns only after "
+         "its receivers acknowledged, one global order (checked exactly against the anchor), zero-subscriber Sends return 0. C06S (instrumented): five fixed races "
+         "(leave/cancel/join during Send and vice versa) under a 1.5 ms delay at every synchronisation point hit (k-th hit <= 3). non-trivial = case with receipts and a "
+         "mid-Send leave or overlapping Sends, or a sweep run; distinct by case tuple / sweep point",
+    level_text="Theorems (Properties/C06.v, 18): on the counter abstraction, for any number of senders and subscribers and every schedule: no copy goes to a subscriber "
+               "not counted by the Send (receive by an uncounted subscriber is never enabled), Send's return value = receivers blocked in Wait and it returns only after "
+               "all acknowledged, Sends are serialised, zero-subscriber Sends return without delivering; on the tagged extension (whose base is proved to be an abstract "
+               "run): the tracked subscription's receipts are a contiguous run of the round order, no duplicate, no stale round, standing subscriptions are included; "
+               "refuted without the write lock. Tie: Go monitors + delay-bounded sweep.",
+    level_note=_PS_NOTE,
+    stages=[corr_stage("C06K2", 1000, 6000, feature=feat_pubsub, seeds=3),
+            corr_stage("C06S", 3, 10, feature=feat_pubsub, instrument=True, shards=6, tparams={"hits": 6}, timeout=1200)],
+)
+PROPS["C07"] = dict(
+    rule="C06K2 and C06S as for C06 (different programs: salt 7) with the C07 monitors: every call returns within 3 s (hang = MONITOR with the blocked calls), no panic "
+         "under contract-following use, final Add(0) = subscribes - unsubscribes, a later Send still works, instance not broken; C07SAN: sanityCheckSubscribersDelta "
+         "and addSubscribers over boundary int32 values against the extracted PubSubSanity model. non-trivial as C06; sanity cases distinct by arguments",
+    level_text="Theorems (Properties/C07.v, 12): no reachable state takes an invariant-panic transition (bad = 0), every quiescent/terminal reachable state has all calls "
+               "returned (deadlock freedom) with a strictly decreasing measure (every run finite, explicit bound), final subscriber count = subscriptions - "
+               "unsubscriptions with the caster idle, sanityCheckSubscribersDelta fires iff the int32 arithmetic wrapped or a value is negative (explicit mod 2^32); "
+               "refuted when an unsubscribe during delivery is not routed through the caster. Tie: Go monitors + delay-bounded sweep + sanity differential.",
+    level_note=_PS_NOTE,
+    stages=[corr_stage("C06K2", 1000, 6000, feature=feat_pubsub, seeds=3, params={"salt": 7}),
+            corr_stage("C06S", 3, 10, feature=feat_pubsub, instrument=True, shards=6, params={"salt": 7}, tparams={"hits": 6}, timeout=1200),
+            corr_stage("C07SAN", 300, 20000, feature=feat_pubsub)],
 )
